@@ -78,11 +78,13 @@ def _can_remove_block(
         return False
 
     # If there are incoming control flow edges but no target for them to be
-    # redirected to, we must keep the block.
+    # redirected to, we must keep the block. Edges from the block to itself
+    # go away with it.
     if (
         isinstance(block, gtirb.CfgNode)
         and not all(
-            _is_fallthrough_edge(edge) for edge in block.incoming_edges
+            _is_fallthrough_edge(edge) or edge.source is block
+            for edge in block.incoming_edges
         )
         and not isinstance(next_block, gtirb.CfgNode)
         and not retarget_to_proxy
